@@ -8,6 +8,7 @@ from pygradflow.implicit_func import ScaledImplicitFunc
 from pygradflow.iterate import Iterate
 from pygradflow.params import Params
 from pygradflow.problem import Problem
+from pygradflow.step.step_solver_error import StepSolverError
 
 from .step_solver import StepResult, StepSolver
 
@@ -92,7 +93,10 @@ class ScaledStepSolver(StepSolver):
         lamb = 1.0 / self.dt
         fact = 1.0 / (1.0 + lamb * rho)
 
-        assert fact > 0.0
+        if not fact > 0.0:
+            # lamb * rho is not finite (the penalty overflowed): there is
+            # no step to compute, report it like any failed step
+            raise StepSolverError("Penalty parameter too large")
 
         b2t = fact * b2
 
